@@ -1638,7 +1638,7 @@ def run(ctx):
         n_routine += 1
         # circuit breaker: a tree on which many searches hit the call-count guard (each costs
         # thousands of solve calls) has failed already; do not let the run drag on
-        if n_guard[0] > 8 or len(ctx.s_violations) > 3000:
+        if n_guard[0] > 8 or len(ctx.s_violations) > 5000:
             ctx.extra["stopped_early"] = "too many violations (%d guard hits)" % n_guard[0]
             break
         _one(ctx, fam, case, batch, spec_batch)
